@@ -168,11 +168,19 @@ def admissibleOf (e : Gen.Entry) : List String :=
 
 def admissible (v : String) : List String := (Gen.table.filter (·.ty == v)).flatMap admissibleOf
 
+/-- the legend indices given to the word operators (OR XOR AND NOT MOD) -/
+def wordOpClasses : List (Option Nat) :=
+  wordOps.filterMap fun v => (Gen.legendMap.find? (·.1 == v)).map (·.2)
+
 def legendSoundB : Bool :=
-  Gen.legendMap.all fun p =>
+  (Gen.legendMap.all fun p =>
     match p.2 with
     | none => true
     | some i =>
       match Gen.legend[i]? with
       | none => false
-      | some name => (admissible p.1).contains name
+      | some name => (admissible p.1).contains name)
+  -- the lenient reading lets the word operators be `operator` or `keyword`, but all of them alike
+  && (match wordOpClasses with
+      | [] => true
+      | c :: cs => cs.all (· == c))
